@@ -1,15 +1,20 @@
 CHECK = dict(
     level='model_checking',
-    parts=[dict(name='c09', src=['harness/c09_list.c'], workers=8,
+    parts=[dict(name='c09', src=['harness/c09_list.c'], lib=['list.c'], workers=16,
                 deadline=dict(quick=120, thorough=900))],
     rule='explicit-state BFS to a fixpoint over (2 lists, node pool with duplicate keys, one iterator per list) driving '
          'the real list.c; every transition = one list operation applied to the implementation and to an array model, '
          'followed by a full traversal comparison; a state is distinct when its raw image (list heads, stale tails, node '
-         'links, iterator internals, model) differs',
+         'links, iterator internals, model, and every static of list.c - it is linked as an object of its own whose writable '
+         'sections are part of each snapshot) differs. The API part of the observation runs on the live state, which is put back '
+         'afterwards, so an observation cannot repair what an operation left behind. Long-list family (counted under traces): '
+         'lengths {33,65,129,255,256,257,1000,65535,65536,65537} x built by tail insert / push / sorted insert (<= 1000) x 7 probe '
+         'operations x positions {0,1,31,32,33,n/2,254..257,n-2,n-1}, each case built afresh and compared with an array model',
     bounds=dict(quick='node pools of 1..5 nodes (keys 1223, 221, 1111, 3211, 12, 1, 12233, 32121, and four 4-node pools whose key differences - the comparator results - are multiples of 2^8, of 2^16, change sign when narrowed, or need 31 bits): complete reachable state space',
                 thorough='adds 6-node pools (122333, 321321): complete reachable state space'),
     assumptions=['scope: a node is never inserted while a member of a list; an iterator is used only until its list '
-                 'is mutated by a non-iterator operation', 'one iterator per list'],
+                 'is mutated by a non-iterator operation', 'one iterator per list',
+                 'what a free node holds in its link field is not judged (reusability is decided by reusing it)'],
 )
 CHECK.update(
     technique='explicit-state model checking: BFS to a fixpoint over operation histories of the real list.c against an array model',
@@ -22,21 +27,4 @@ CHECK.update(
     design_ref='DESIGN.md section 4, C09',
 )
 
-# build variants: the same enumeration on other builds of the librfn sources (conditional code such as __OPTIMIZE_SIZE__ /
-# __OPTIMIZE__ / __clang__, and compiler-dependent arithmetic, show only there); counted separately by the driver
-def _variants(parts, names):
-    out = []
-    for p in parts:
-        if p['name'] not in names:
-            continue
-        for tag, cc, flags, tiers in (('gcc -Os', 'gcc', ['-Os'], ('quick', 'thorough')), ('clang -O2', 'clang', [], ('thorough',))):
-            q = dict(p)
-            q['name'] = p['name'] + '_' + tag.split()[0] + tag.split()[1].strip('-')
-            q['variant'] = tag
-            q['cc'] = cc
-            q['cflags'] = list(p.get('cflags', [])) + flags
-            q['tiers'] = tiers
-            out.append(q)
-    return out
-CHECK['parts'] = CHECK['parts'] + _variants(CHECK['parts'], ['c09'])
-CHECK['bounds'] = dict((k, v + '; the whole enumeration repeated on a gcc -Os build' + (' and a clang -O2 build' if k == 'thorough' else '') + ' of the librfn sources (counted separately)') for k, v in CHECK['bounds'].items())
+CHECK['variants'] = ['c09']
